@@ -166,6 +166,70 @@ claim(
     "DESIGN.md section 5 / C20",
 )
 
+claim(
+    "C02",
+    "exploration",
+    "D-lattice",
+    "bounded-exhaustive configuration/input lattice evaluated by the real GpRegressor against an independent 50-digit reference GP",
+    "Kernels {SE, RQ, SE+WN, RQ+WN, SE+HN, SE+RQ, ChangePoint 2-3 kernels, nested} x means {Constant, Linear, Quadratic} x noise {none, y_err, diagonal y_cov, full y_cov} x (n,d) in {2,3,5,8}x{1,2,3} x deterministic designs x "
+    "hyper-parameter level patterns x query forms: __call__, build_posterior and mean_only vs a reference whose kernels are re-implemented from the documented formulas and whose algebra runs in mpmath; mutual agreement of the three calls, "
+    "0 <= var <= prior var, all n! orders of the training set (n<=4), y_err == diag y_cov. Designs with cond > 1e10 are skipped and counted.",
+    "n <= 8, d <= 3; jitter accepted in [0, 1e-10 K_ii]; y_cov as ndarray; mpmath trusted",
+    "DESIGN.md section 5 / C02",
+)
+claim(
+    "C10",
+    "exploration",
+    "D-lattice",
+    "bounded-exhaustive lattice over kernel/mean compositions, point sets and hyper-parameter patterns against formulas re-implemented in complex/50-digit arithmetic",
+    "Every kernel and composition (sums, ChangePoint with 2,3,4 kernels, nested) x point sets n<=8, d<=3 incl. duplicates x hyper-parameter patterns: symmetric, PSD, builder = pairwise + documented diagonal terms, rectangular blocks, "
+    "hyper-parameter gradients vs exact complex-step derivatives of the reference, composite value/gradients/labels/bounds = concatenation of components (also when a component was given its own bounds), mean functions likewise.",
+    "finite designs; diagonal additions in [0,1e-10 K_ii] accepted as jitter; mean-function origin convention left open",
+    "DESIGN.md section 5 / C10",
+)
+claim(
+    "C12",
+    "exploration",
+    "D-lattice",
+    "bounded-exhaustive enumeration of small multisets and deterministic quantile samples against the exact Gaussian KDE",
+    "All multisets of size 3..5 over 4-letter alphabets with >= 2 distinct values plus deterministic quantile samples (normal, t2, bimodal, ties; n up to 5000) x bandwidth modes {user, rule of thumb, cross-validated with the "
+    "sub-sampling draws scripted} x evaluation points at every look-up region edge +-1 ulp, every sample point, a fine grid and far outside x affine maps: pdf >= 0, |pdf - exact| <= 1e-3/h, |cdf - exact| <= 5e-4, cdf monotone 0 -> 1 and equal to the "
+    "integral of the pdf, order independence, scalar = array, covariance under shift/scale for every bandwidth mode.",
+    "thresholds are the stated conventions of DESIGN.md (worst slack reported); 1-D evaluation points",
+    "DESIGN.md section 5 / C12",
+)
+claim(
+    "C16",
+    "exploration",
+    "D-lattice",
+    "bounded-exhaustive configuration lattice; Richardson-extrapolated derivatives of the real prediction and a 50-digit reference for the gradient covariance",
+    "d in {1,2,3} x n in {3,6} x means {C,L,Q} x kernels x hyper-parameter patterns x single/batched queries: gradient() and spatial_derivatives() means = Richardson derivative of the real __call__ mean and = reference; variance "
+    "derivative = derivative of __call__ variance; gradient covariance symmetric, PSD, = prior d d'k minus explained part (mpmath), explained part PSD; shapes; kernels without gradient_terms may raise NotImplementedError.",
+    "finite designs; SE kernel for values; mpmath trusted",
+    "DESIGN.md section 5 / C16",
+)
+claim(
+    "C18",
+    "exploration",
+    "D-lattice + C-history",
+    "bounded-exhaustive lattice over improvement z-scores and configurations against mpmath definitions; BFS over propose/add call histories on fresh real objects",
+    "EI / UCB / MaxVariance for GPs (d in {1,2}, n in {3,6}) steered to z in {-40,...,-3-1e-9,-3,-3+1e-9,...,8}: EI = sigma(z Phi + phi) = E max(f - y_max, 0) by quadrature, continuity across the branch switch, opt_func = -log EI, "
+    "opt_func_gradient = same objective + Richardson spatial gradient. History search: all sequences of length <= 3 over {propose(bfgs), propose(diffev), add(x,y[,err])} with the random starts scripted on {0,1/2,1-}: proposals inside the "
+    "box, added point becomes a row of the data, incumbent = max(y), every caller array byte- and shape-identical.",
+    "differential_evolution consumes its own stream (seeded; only bounds membership claimed); d <= 2; histories <= 3",
+    "DESIGN.md section 5 / C18",
+)
+claim(
+    "C19",
+    "exploration",
+    "D-lattice",
+    "bounded-exhaustive catalogue of deterministic samples x scales x locations x fractions; every oracle is against the estimator's own density integrated by the harness",
+    "Quantile samples {normal, gamma(3), t6; bimodal for KDE} x n x scale 1e-6..1e6 x location up to 1e6 sd x fractions: normalisation, cdf = integral of pdf, interval mass under own cdf and equal end densities, mode maximal, "
+    "moments of the own density (with the declared-range tail allowance), and covariance of every normalised output under shift/scale, for GaussianKDE and UnimodalPdf.",
+    "thresholds are the stated conventions of DESIGN.md C19 (>= 2.5x worst in-domain slack); 'reasonable sample' = the catalogue",
+    "DESIGN.md section 5 / C19",
+)
+
 ALL = [f"C{i:02d}" for i in range(1, 21)]
 PENDING_REASON = "check under construction in this session (design in DESIGN.md section 5); not yet claimed"
 
